@@ -839,8 +839,8 @@ impl GlobalInferenceCtx<'_> {
                     ),
                 }
             }
-            Expr::Call { .. } if deref => ExprMutability::Mutable,
-            Expr::Cast { .. } if deref => {
+            // the result of a call or cast is only mutable through a `^mut` pointer
+            Expr::Call { .. } | Expr::Cast { .. } if deref => {
                 let ty = self.tys[self.loc][expr];
 
                 let ty = match ty.absolute_ty() {
